@@ -1,4 +1,7 @@
 import Qhttp.Model.Socket
+import Qhttp.Lemmas.BytesLemmas
+import Qhttp.Lemmas.BytesNum
+import Qhttp.Lemmas.C01Parser
 /-
   C01 — request head accepted iff well-formed, parsed fields exact.
   Definitions (`expect`, `holds`) come first; the theorems about them are below and in
@@ -39,5 +42,257 @@ def holds (env : Env) (sc : Scenario) (obs : List Obs) : Bool :=
     match expect env head with
     | none => Obs.countP Obs.isHp obs == 0
     | some f => Obs.countP Obs.isHp obs == 1 && firstSnap obs == some f
+
+
+/-! ## Theorems
+
+  All statements are about arbitrary byte strings (unbounded) and an arbitrary `env`
+  (`env.url` is the `QUrl` oracle: nothing is assumed about it). -/
+
+open Parser
+
+/-- the grammar side: `METHOD SP target SP version (CRLF line)*` -/
+def render (m t v : Bytes) (hs : List Bytes) : Bytes :=
+  m ++ [SP] ++ t ++ [SP] ++ v ++ hs.flatMap (fun l => CRLF ++ l)
+
+/-- side conditions of the grammar, as one executable predicate -/
+def wellFormedB (env : Env) (m t v : Bytes) (hs : List Bytes) : Bool :=
+  (methodCode m).isSome && (v == HTTP10 || v == HTTP11) && !t.contains SP && !isInfixB CRLF t &&
+  (env.url t).isSome && hs.all (fun l => l.contains COLON && !isInfixB CRLF l)
+
+theorem wellFormedB_iff (env : Env) (m t v : Bytes) (hs : List Bytes) :
+    wellFormedB env m t v hs = true ↔
+      methodCode m ≠ none ∧ (v = HTTP10 ∨ v = HTTP11) ∧ SP ∉ t ∧ ¬ CRLF <:+: t ∧
+      (env.url t).isSome ∧ (∀ l ∈ hs, COLON ∈ l ∧ ¬ CRLF <:+: l) := by
+  have hi : ∀ xs : Bytes, (!isInfixB CRLF xs) = true ↔ ¬ CRLF <:+: xs := fun xs => by
+    rw [← isInfixB_iff]; simp
+  simp only [wellFormedB, Bool.and_eq_true, Bool.or_eq_true, beq_iff_eq, hi, List.all_eq_true,
+    List.contains_iff_mem, Bool.not_eq_true', ← Option.isSome_iff_ne_none]
+  constructor
+  · rintro ⟨⟨⟨⟨⟨h1, h2⟩, h3⟩, h4⟩, h5⟩, h6⟩
+    refine ⟨h1, h2, ?_, h4, h5, h6⟩
+    intro c
+    have := List.contains_iff_mem.2 c
+    rw [h3] at this; cases this
+  · rintro ⟨h1, h2, h3, h4, h5, h6⟩
+    refine ⟨⟨⟨⟨⟨h1, h2⟩, ?_⟩, h4⟩, h5⟩, h6⟩
+    cases hc : t.contains SP with
+    | false => rfl
+    | true => exact absurd (List.contains_iff_mem.1 hc) h3
+
+theorem render_eq_joinWith (m t v : Bytes) (hs : List Bytes) :
+    render m t v hs = joinWith CRLF ((m ++ [SP] ++ t ++ [SP] ++ v) :: hs) := by
+  rw [joinWith_cons_eq_flatMap]; rfl
+
+/-- Exact characterisation of the parser model, independent of the URL oracle:
+    `parseRequestHeaders` succeeds with `rh` iff the input is a rendering of a method token
+    with code `rh.method`, the target `rh.rawPath`, one of the two versions and header lines
+    each containing a colon, and `rh.headers` is the fold of the lines. -/
+theorem parse_eq_some_iff (head : Bytes) (rh : Parser.ReqHead) :
+    Parser.parseRequestHeaders head = some rh ↔
+      ∃ m v hs, methodCode m = some rh.method ∧ (v = HTTP10 ∨ v = HTTP11) ∧
+        SP ∉ rh.rawPath ∧ ¬ CRLF <:+: rh.rawPath ∧ (∀ l ∈ hs, COLON ∈ l ∧ ¬ CRLF <:+: l) ∧
+        rh.headers = hs.foldl insertLine [] ∧ head = render m rh.rawPath v hs := by
+  rw [Parser.parseRequestHeaders_eq_some_iff]
+  constructor
+  · rintro ⟨p0, p2, hp, hv, hc⟩
+    obtain ⟨hs, _, h1, hf, hl, hpl, rfl⟩ := (Parser.parseHeaders_eq_some_iff _ _ _ _ _ _).1 hp
+    rw [Parser.parseHeaderList_eq] at hpl
+    split at hpl
+    · rename_i hcol
+      have hhd := (Option.some.inj hpl).symm
+      refine ⟨p0, p2, hs, hc, hv, h1, ?_, fun l hl' => ⟨hcol l hl', hl l hl'⟩, hhd,
+        (render_eq_joinWith _ _ _ _).symm⟩
+      · intro c
+        apply hf
+        obtain ⟨s, t, e⟩ := c
+        exact ⟨p0 ++ [SP] ++ s, t ++ [SP] ++ p2, by rw [← e]; simp [List.append_assoc]⟩
+    · cases hpl
+  · rintro ⟨m, v, hs, hc, hv, h1, h2, hl, hh, rfl⟩
+    have hm : methodCode m ≠ none := by rw [hc]; simp
+    refine ⟨m, v, ?_, hv, hc⟩
+    rw [Parser.parseHeaders_eq_some_iff]
+    refine ⟨hs, (Parser.method_no_SP_CR hm).1, h1, Parser.requestLine_no_CRLF hm hv h2,
+      fun l hl' => (hl l hl').2, ?_, render_eq_joinWith _ _ _ _⟩
+    rw [Parser.parseHeaderList_eq, if_pos (fun l hl' => (hl l hl').1), hh]
+
+theorem expect_eq_some_iff (env : Env) (head : Bytes) (s : Snap) :
+    expect env head = some s ↔
+      ∃ rh p q, Parser.parseRequestHeaders head = some rh ∧ env.url rh.rawPath = some (p, q) ∧
+        s = { parsed := true, method := rh.method, rawPath := rh.rawPath, path := p,
+              query := q.foldl (fun m e => Sock.qmInsert e.1 e.2 m) [],
+              headers := rh.headers,
+              total := if HeaderMap.contains Sock.CONTENT_LENGTH rh.headers
+                       then toLongLong (HeaderMap.value Sock.CONTENT_LENGTH rh.headers)
+                       else -1 } := by
+  unfold expect
+  constructor
+  · intro h
+    split at h
+    · cases h
+    · rename_i rh hrh
+      split at h
+      · cases h
+      · rename_i p q hu
+        cases h
+        exact ⟨rh, p, q, hrh, hu, rfl⟩
+  · rintro ⟨rh, p, q, hrh, hu, rfl⟩
+    rw [hrh]
+    simp only [hu]
+
+/-- **C01, acceptance.**  A request head is accepted iff it is
+    `METHOD SP target SP HTTP/1.0|HTTP/1.1 (CRLF line)*` with one of the eight method tokens,
+    a target without space and without CRLF that the URL oracle accepts, and every line
+    containing a colon (and no CRLF, i.e. the lines are exactly the CRLF-separated pieces).
+    `→` is "nothing else is ever accepted".  The statement is true exactly as proposed: the
+    target may be empty iff the oracle accepts the empty string, the version must be the exact
+    8 bytes (a trailing CR or space is rejected). -/
+theorem accept_iff (env : Env) (head : Bytes) :
+    (expect env head).isSome ↔
+      ∃ m t v hs, methodCode m ≠ none ∧ (v = HTTP10 ∨ v = HTTP11) ∧ SP ∉ t ∧ ¬ CRLF <:+: t ∧
+        (env.url t).isSome ∧ (∀ l ∈ hs, COLON ∈ l ∧ ¬ CRLF <:+: l) ∧ head = render m t v hs := by
+  constructor
+  · intro h
+    obtain ⟨s, hs⟩ := Option.isSome_iff_exists.1 h
+    obtain ⟨rh, p, q, hrh, hu, _⟩ := (expect_eq_some_iff _ _ _).1 hs
+    obtain ⟨m, v, hs, hc, hv, h1, h2, hl, _, e⟩ := (parse_eq_some_iff _ _).1 hrh
+    exact ⟨m, rh.rawPath, v, hs, by rw [hc]; simp, hv, h1, h2, by rw [hu]; rfl, hl, e⟩
+  · rintro ⟨m, t, v, hs, hm, hv, h1, h2, hu, hl, rfl⟩
+    obtain ⟨c, hc⟩ := Option.isSome_iff_exists.1 (Option.isSome_iff_ne_none.2 hm)
+    obtain ⟨⟨p, q⟩, hpq⟩ := Option.isSome_iff_exists.1 hu
+    have hp : Parser.parseRequestHeaders (render m t v hs) =
+        some { method := c, rawPath := t, headers := hs.foldl insertLine [] } :=
+      (parse_eq_some_iff _ _).2 ⟨m, v, hs, hc, hv, h1, h2, hl, rfl, rfl⟩
+    apply Option.isSome_iff_exists.2
+    exact ⟨_, (expect_eq_some_iff _ _ _).2 ⟨_, p, q, hp, hpq, rfl⟩⟩
+
+/-- the same with the right-hand side as the executable predicate `wellFormedB` -/
+theorem accept_iff' (env : Env) (head : Bytes) :
+    (expect env head).isSome ↔
+      ∃ m t v hs, wellFormedB env m t v hs = true ∧ head = render m t v hs := by
+  rw [accept_iff]
+  constructor
+  · rintro ⟨m, t, v, hs, h1, h2, h3, h4, h5, h6, e⟩
+    exact ⟨m, t, v, hs, (wellFormedB_iff _ _ _ _ _).2 ⟨h1, h2, h3, h4, h5, h6⟩, e⟩
+  · rintro ⟨m, t, v, hs, h, e⟩
+    obtain ⟨h1, h2, h3, h4, h5, h6⟩ := (wellFormedB_iff _ _ _ _ _).1 h
+    exact ⟨m, t, v, hs, h1, h2, h3, h4, h5, h6, e⟩
+
+/-- the decomposition of an accepted head is unique (the grammar is unambiguous) -/
+theorem render_unique {m t v : Bytes} {hs : List Bytes} {m' t' v' : Bytes} {hs' : List Bytes}
+    (hm : methodCode m ≠ none) (hv : v = HTTP10 ∨ v = HTTP11) (h1 : SP ∉ t)
+    (h2 : ¬ CRLF <:+: t) (hl : ∀ l ∈ hs, ¬ CRLF <:+: l)
+    (hm' : methodCode m' ≠ none) (hv' : v' = HTTP10 ∨ v' = HTTP11) (h1' : SP ∉ t')
+    (h2' : ¬ CRLF <:+: t') (hl' : ∀ l ∈ hs', ¬ CRLF <:+: l)
+    (e : render m t v hs = render m' t' v' hs') : m = m' ∧ t = t' ∧ v = v' ∧ hs = hs' := by
+  rw [render_eq_joinWith, render_eq_joinWith] at e
+  have s1 := split_CRLF_joinWith ((m ++ [SP] ++ t ++ [SP] ++ v) :: hs) (by simp) (by
+    intro p hp
+    rcases List.mem_cons.1 hp with rfl | hp
+    · exact Parser.requestLine_no_CRLF hm hv h2
+    · exact hl p hp)
+  have s2 := split_CRLF_joinWith ((m' ++ [SP] ++ t' ++ [SP] ++ v') :: hs') (by simp) (by
+    intro p hp
+    rcases List.mem_cons.1 hp with rfl | hp
+    · exact Parser.requestLine_no_CRLF hm' hv' h2'
+    · exact hl' p hp)
+  rw [e, s2] at s1
+  simp only [List.cons.injEq] at s1
+  obtain ⟨ef, eh⟩ := s1
+  have a1 := (Parser.split_SP2_eq_iff _ m t v).2 ⟨(Parser.method_no_SP_CR hm).1, h1, rfl⟩
+  have a2 := (Parser.split_SP2_eq_iff _ m' t' v').2 ⟨(Parser.method_no_SP_CR hm').1, h1', rfl⟩
+  rw [← ef, a2] at a1
+  simp only [List.cons.injEq, and_true] at a1
+  exact ⟨a1.1.symm, a1.2.1.symm, a1.2.2.symm, eh.symm⟩
+
+/-- the accepted method tokens are exactly the eight upper-case literals … -/
+theorem method_tokens (m : Bytes) :
+    methodCode m ≠ none ↔
+      m = Parser.OPTIONS ∨ m = Parser.GET ∨ m = Parser.HEAD ∨ m = Parser.POST ∨
+      m = Parser.PUT ∨ m = Parser.DELETE ∨ m = Parser.TRACE ∨ m = Parser.CONNECT :=
+  Parser.methodCode_ne_none_iff m
+
+/-- … and their codes are the eight distinct powers of two of `Socket::Method` -/
+theorem method_codes :
+    methodCode Parser.OPTIONS = some 1 ∧ methodCode Parser.GET = some 2 ∧
+    methodCode Parser.HEAD = some 4 ∧ methodCode Parser.POST = some 8 ∧
+    methodCode Parser.PUT = some 16 ∧ methodCode Parser.DELETE = some 32 ∧
+    methodCode Parser.TRACE = some 64 ∧ methodCode Parser.CONNECT = some 128 := by decide
+
+/-- **C01, exact fields.**  On a well-formed head the application is shown: the code of the
+    method token, the raw target, the path and the query items the URL oracle returned (items
+    inserted with `QMultiMap::insert` in order), and for every name `k` the header values
+    whose (trimmed) name equals `k` case-insensitively, trimmed, duplicates kept, most recent
+    first. -/
+theorem fields_exact (env : Env) (m t v : Bytes) (hs : List Bytes)
+    (hm : methodCode m ≠ none) (hv : v = HTTP10 ∨ v = HTTP11) (h1 : SP ∉ t)
+    (h2 : ¬ CRLF <:+: t) (hu : (env.url t).isSome) (hl : ∀ l ∈ hs, COLON ∈ l ∧ ¬ CRLF <:+: l) :
+    ∃ s c p q, expect env (render m t v hs) = some s ∧ methodCode m = some c ∧
+      env.url t = some (p, q) ∧
+      s.parsed = true ∧ s.method = c ∧ s.rawPath = t ∧ s.path = p ∧
+      s.query = q.foldl (fun acc e => Sock.qmInsert e.1 e.2 acc) [] ∧
+      ∀ k, HeaderMap.values k s.headers =
+        hs.reverse.filterMap (fun l =>
+          match breakOn [COLON] l with
+          | some (n, x) => if lower (trim n) = lower k then some (trim x) else none
+          | none => none) := by
+  obtain ⟨c, hc⟩ := Option.isSome_iff_exists.1 (Option.isSome_iff_ne_none.2 hm)
+  obtain ⟨⟨p, q⟩, hpq⟩ := Option.isSome_iff_exists.1 hu
+  have hp : Parser.parseRequestHeaders (render m t v hs) =
+      some { method := c, rawPath := t, headers := hs.foldl insertLine [] } :=
+    (parse_eq_some_iff _ _).2 ⟨m, v, hs, hc, hv, h1, h2, hl, rfl, rfl⟩
+  refine ⟨_, c, p, q, (expect_eq_some_iff _ _ _).2 ⟨_, p, q, hp, hpq, rfl⟩, hc, hpq,
+    rfl, rfl, rfl, rfl, rfl, fun k => ?_⟩
+  simp only
+  rw [Parser.values_foldl_insertLine, HeaderMap.values_nil, List.append_nil]
+  rfl
+
+/-- **C01, declared length.**  `contentLength()` is `toLongLong` of the most recent
+    `Content-Length` value (name compared case-insensitively), and −1 when there is none.
+    (NB the proposed "`total = -1` iff there is no such header" is false in one direction:
+    `Content-Length: -1` also gives −1, see the example below; the exact statement is this
+    one.) -/
+theorem content_length (env : Env) (head : Bytes) (s : Snap) (h : expect env head = some s) :
+    s.total = match HeaderMap.values Sock.CONTENT_LENGTH s.headers with
+              | [] => -1
+              | x :: _ => toLongLong x := by
+  obtain ⟨rh, p, q, _, _, rfl⟩ := (expect_eq_some_iff _ _ _).1 h
+  exact HeaderMap.contains_value_eq _ _ _ _
+
+/-- no `Content-Length` line: −1 -/
+theorem content_length_absent (env : Env) (head : Bytes) (s : Snap) (h : expect env head = some s)
+    (hn : HeaderMap.values Sock.CONTENT_LENGTH s.headers = []) : s.total = -1 := by
+  rw [content_length env head s h, hn]
+
+/-- the most recent `Content-Length` value is a decimal numeral below 2^63, possibly padded
+    with white space: the declared length is that number -/
+theorem content_length_numeral (env : Env) (head : Bytes) (s : Snap)
+    (h : expect env head = some s) (n : Nat) (hn : n < 2 ^ 63) (p q : Bytes)
+    (hp : ∀ c ∈ p, isSp c = true) (hq : ∀ c ∈ q, isSp c = true) (rest : List Bytes)
+    (hv : HeaderMap.values Sock.CONTENT_LENGTH s.headers = (p ++ natDigits n ++ q) :: rest) :
+    s.total = (n : Int) := by
+  rw [content_length env head s h, hv]
+  exact toLongLong_natDigits_padded n hn p q hp hq
+
+/-- `content_length` in terms of the lines the client sent -/
+theorem content_length_lines (env : Env) (m t v : Bytes) (hs : List Bytes) (s : Snap)
+    (hm : methodCode m ≠ none) (hv : v = HTTP10 ∨ v = HTTP11) (h1 : SP ∉ t)
+    (h2 : ¬ CRLF <:+: t) (hl : ∀ l ∈ hs, COLON ∈ l ∧ ¬ CRLF <:+: l)
+    (h : expect env (render m t v hs) = some s) :
+    s.total = match hs.reverse.filterMap (lineValue Sock.CONTENT_LENGTH) with
+              | [] => -1
+              | x :: _ => toLongLong x := by
+  have hu : (env.url t).isSome := by
+    obtain ⟨rh, p, q, hrh, hu, _⟩ := (expect_eq_some_iff _ _ _).1 h
+    obtain ⟨m', v', hs', hc, hv', h1', h2', hl', _, e⟩ := (parse_eq_some_iff _ _).1 hrh
+    have := render_unique hm hv h1 h2 (fun l hl0 => (hl l hl0).2)
+      (by rw [hc]; simp) hv' h1' h2' (fun l hl0 => (hl' l hl0).2) e
+    rw [this.2.1, hu]; rfl
+  obtain ⟨s', c, p, q, hs', _, _, _, _, _, _, _, hvals⟩ :=
+    fields_exact env m t v hs hm hv h1 h2 hu hl
+  rw [h] at hs'
+  cases hs'
+  rw [content_length env _ s h, hvals]
+  rfl
 
 end Qhttp.C01
